@@ -762,14 +762,14 @@ func (ro *RedisOutput) parseAofCommand(replayQuit usync.WaitCloser, reader *bufi
 				ignoresentinel = true
 			}
 
-			if bypass || ignoreCmd || ignoresentinel {
+			if (bypass && !isTransactionBracket(sCmd)) || ignoreCmd || ignoresentinel {
 				ro.filterCounterAdd(1)
 				continue
 			}
 		}
 
 		newArgv, reject = ro.outFilter.FilterCmdKey(sCmd, argv)
-		if bypass || reject {
+		if (bypass && !isTransactionBracket(sCmd)) || reject {
 			ro.filterCounterAdd(1)
 			continue
 		}
